@@ -66,6 +66,120 @@ class State(object):
         return (self.status, tuple(sorted(self.attrs.items())), tuple(sorted(self.atoms.items())), tuple(sorted(self.locals.items())))
 
 
+class _GetattrSelf(ast.NodeTransformer):
+    """getattr(self, '<const>'[, <falsy default>]) -> self.<const>"""
+
+    def visit_Call(self, node):
+        self.generic_visit(node)
+        if isinstance(node.func, ast.Name) and node.func.id == "getattr" and len(node.args) in (2, 3) and isinstance(node.args[0], ast.Name) and node.args[0].id == "self" \
+                and isinstance(node.args[1], ast.Constant) and isinstance(node.args[1].value, str) and node.args[1].value.isidentifier():
+            if len(node.args) == 3 and not (isinstance(node.args[2], ast.Constant) and not node.args[2].value):
+                return node
+            return ast.copy_location(ast.Attribute(value=node.args[0], attr=node.args[1].value, ctx=ast.Load()), node)
+        return node
+
+
+def _literal_table(it, host):
+    """The literal table a ``for`` iterates (inline, or a local bound exactly once to a literal), or None."""
+    if isinstance(it, ast.Name):
+        stores = [x for x in ast.walk(host) if isinstance(x, ast.Name) and x.id == it.id and isinstance(x.ctx, (ast.Store, ast.Del))]
+        if len(stores) != 1:
+            return None
+        defs = [a for a in ast.walk(host) if isinstance(a, ast.Assign) and len(a.targets) == 1 and a.targets[0] is stores[0]]
+        if not defs:
+            return None
+        it = defs[0].value
+    if not isinstance(it, (ast.Tuple, ast.List)):
+        return None
+
+    def leaf(e):
+        return isinstance(e, ast.Constant) or (isinstance(e, ast.Name) and e.id in ("int", "float", "str", "bool"))
+    table = []
+    for row in it.elts:
+        if leaf(row):
+            table.append(row)
+        elif isinstance(row, (ast.Tuple, ast.List)) and all(leaf(e) for e in row.elts):
+            table.append(list(row.elts))
+        else:
+            return None
+    return table if len(table) <= 64 else None
+
+
+def _guard_continue_normal_form(body):
+    """[..., if c: continue, rest...] -> [..., if not c: rest...] (same behaviour inside a loop body)."""
+    for i, st in enumerate(body):
+        if isinstance(st, ast.If) and len(st.body) == 1 and isinstance(st.body[0], ast.Continue) and not st.orelse:
+            rest = _guard_continue_normal_form(body[i + 1:])
+            if not rest:
+                return body[:i]
+            new = ast.If(test=ast.UnaryOp(op=ast.Not(), operand=st.test), body=rest, orelse=[])
+            ast.copy_location(new, st)
+            return body[:i] + [new]
+    return body
+
+
+def unroll_literal_loops(fn):
+    """View transformation: a ``for`` over a literal table of constants whose body has no break/continue (after the
+    guard-continue normal form) is replaced by one copy of the body per element, loop variables substituted and
+    getattr(self, '<name>') read as self.<name>.  Returns the number of loops unrolled."""
+    from .normal import _clone_stmts, _Subst
+    from .model import set_parents
+    count = 0
+    changed = True
+    while changed:
+        changed = False
+        for holder in ast.walk(fn):
+            for field in ("body", "orelse", "finalbody"):
+                lst = getattr(holder, field, None)
+                if not isinstance(lst, list):
+                    continue
+                for i, node in enumerate(lst):
+                    if not isinstance(node, ast.For) or node.orelse:
+                        continue
+                    table = _literal_table(node.iter, fn)
+                    if table is None:
+                        continue
+                    body = _guard_continue_normal_form(list(node.body))
+                    if any(isinstance(x, (ast.Break, ast.Continue)) for st in body for x in ast.walk(st)):
+                        continue
+                    tg = node.target
+                    out, ok = [], True
+                    for row in table:
+                        if isinstance(tg, ast.Name) and not isinstance(row, list):
+                            mapping = {tg.id: row}
+                        elif isinstance(tg, (ast.Tuple, ast.List)) and isinstance(row, list) and len(row) == len(tg.elts) and all(isinstance(e, ast.Name) for e in tg.elts):
+                            mapping = dict((e.id, v) for e, v in zip(tg.elts, row))
+                        else:
+                            ok = False
+                            break
+                        if any(isinstance(x, ast.Name) and isinstance(x.ctx, ast.Store) and x.id in mapping for st in body for x in ast.walk(st)):
+                            ok = False
+                            break
+                        mod = ast.Module(body=_clone_stmts(body), type_ignores=[])
+                        _Subst(mapping).visit(mod)
+                        _GetattrSelf().visit(mod)
+                        for st1 in mod.body:
+                            for x in ast.walk(st1):
+                                if hasattr(x, "lineno"):
+                                    x.lineno = node.lineno
+                                    x.end_lineno = node.lineno
+                        out.extend(mod.body)
+                    if not ok:
+                        continue
+                    lst[i:i + 1] = out or [ast.copy_location(ast.Pass(), node)]
+                    ast.fix_missing_locations(fn)
+                    count += 1
+                    changed = True
+                    break
+                if changed:
+                    break
+            if changed:
+                break
+    if count:
+        set_parents(fn)
+    return count
+
+
 class Interp(object):
     def __init__(self, cls_node, max_states=60000, inline_depth=3, relevant=None):
         self.cls = cls_node
@@ -78,6 +192,8 @@ class Interp(object):
         self._ucache = {}
         self._acache = {}
         self._rcache = {}
+        self._unroll = {}
+        self._keep = []
 
     # ---- expressions ------------------------------------------------------
     def ev(self, e, st):
@@ -298,6 +414,59 @@ class Interp(object):
             cur = self.dedup(done + [s for s in nxt if s.status != "running"] + run2)
         return cur
 
+    def unrolled(self, node):
+        """A ``for`` over a literal table of constants (inline, or a local bound once to such a literal) as a list of bodies,
+        one per element, with the loop variables replaced by the constants and getattr(self, '<name>') read as self.<name>."""
+        k = id(node)
+        if k in self._unroll:
+            return self._unroll[k]
+        self._unroll[k] = None
+        it = node.iter
+        if isinstance(it, ast.Name):
+            host = None
+            for m in self.methods.values():
+                if any(n is node for n in ast.walk(m)):
+                    host = m
+            if host is None:
+                return None
+            defs = [a for a in ast.walk(host) if isinstance(a, (ast.Assign, ast.AugAssign, ast.For, ast.comprehension, ast.With))
+                    and any(isinstance(x, ast.Name) and x.id == it.id and isinstance(x.ctx, ast.Store) for x in ast.walk(a) if not isinstance(a, ast.For) or x is a.target or any(x is y for y in ast.walk(a.target)))]
+            defs = [a for a in defs if not (isinstance(a, ast.For) and not any(isinstance(x, ast.Name) and x.id == it.id for x in ast.walk(a.target)))]
+            if len(defs) != 1 or not isinstance(defs[0], ast.Assign) or len(defs[0].targets) != 1 or not isinstance(defs[0].targets[0], ast.Name):
+                return None
+            it = defs[0].value
+        if not isinstance(it, (ast.Tuple, ast.List)):
+            return None
+        try:
+            table = ast.literal_eval(it)
+        except (ValueError, SyntaxError):
+            return None
+        if len(table) > 64:
+            return None
+        from .normal import _clone_stmts, _Subst
+        tg = node.target
+        bodies = []
+        for row in table:
+            if isinstance(tg, ast.Name):
+                mapping = {tg.id: ast.Constant(value=row)}
+            elif isinstance(tg, (ast.Tuple, ast.List)) and isinstance(row, (tuple, list)) and len(row) == len(tg.elts) and all(isinstance(e, ast.Name) for e in tg.elts):
+                mapping = dict((e.id, ast.Constant(value=v)) for e, v in zip(tg.elts, row))
+            else:
+                return None
+            if any(isinstance(x, ast.Name) and isinstance(x.ctx, ast.Store) and x.id in mapping for st in node.body for x in ast.walk(st)):
+                return None
+            body = _clone_stmts(node.body)
+            mod = ast.Module(body=body, type_ignores=[])
+            _Subst(mapping).visit(mod)
+            _GetattrSelf().visit(mod)
+            ast.fix_missing_locations(mod)
+            for st0, st1 in zip(node.body, mod.body):
+                ast.copy_location(st1, st0)
+            bodies.append(mod.body)
+            self._keep.append(mod)
+        self._unroll[k] = bodies
+        return bodies
+
     def invalidate(self, s, attr):
         """Drop opaque facts that mention an attribute being reassigned."""
         for k in list(s.atoms):
@@ -381,6 +550,28 @@ class Interp(object):
                 s.status = "returned"
                 out.append(s)
             return out
+        if isinstance(node, ast.For) and not node.orelse:
+            un = self.unrolled(node)
+            if un is not None:
+                cur, after = states, []
+                for body in un:
+                    res = self.block(body, cur, depth, (set(live) | self.reads_of(node)) if live is not None else None)
+                    cur = []
+                    for b in res:
+                        if b.status == "loopbreak":
+                            b = b.copy()
+                            b.status = "running"
+                            after.append(b)
+                        elif b.status == "loopcont":
+                            b = b.copy()
+                            b.status = "running"
+                            cur.append(b)
+                        elif b.status == "running":
+                            cur.append(b)
+                        else:
+                            after.append(b)
+                    cur = self.dedup(cur)
+                return self.dedup(after + cur)
         if isinstance(node, (ast.For, ast.While)):
             assigned_attrs = set()
             assigned_locals = set()
@@ -412,14 +603,14 @@ class Interp(object):
                         b2.attrs[a] = UNK
                     for a in assigned_locals:
                         b2.locals[a] = UNK
-                    if b2.status == "loopjump":
+                    if b2.status in ("loopbreak", "loopcont"):
                         b2.status = "running"
                     out.append(b2)
             return out
         if isinstance(node, (ast.Break, ast.Continue)):
             for s in states:
                 s = s.copy()
-                s.status = "loopjump"
+                s.status = "loopbreak" if isinstance(node, ast.Break) else "loopcont"
                 out.append(s)
             return out
         if isinstance(node, ast.Pass):
